@@ -13,14 +13,16 @@
 #include <unistd.h>
 #include <stdio.h>
 #include <string.h>
+#include <errno.h>
 
 extern "C" {
 // knobs set by the harness (plain ints, written before threads start or with relaxed atomics)
 volatile int verif_pt_delay_permille = 0;      // probability (per mille) of a perturbation at each window
 volatile int verif_pt_spurious_permille = 0;   // probability of a legal spurious wake-up in cond_wait/timedwait
+volatile int verif_pt_eintr_permille = 0;      // probability that sem_timedwait/sem_wait is interrupted (returns -1, errno EINTR) before waiting
 volatile uint64_t verif_pt_seed = 1;
 // counters (read by the harness for the evidence)
-volatile long verif_pt_delays = 0, verif_pt_spurious = 0, verif_pt_calls = 0, verif_pt_dead_uses = 0;
+volatile long verif_pt_delays = 0, verif_pt_spurious = 0, verif_pt_calls = 0, verif_pt_dead_uses = 0, verif_pt_eintrs = 0;
 // harness callback; weak so that the shims link without it
 void verif_pt_violation(const char* what, const void* addr) __attribute__((weak));
 }
@@ -119,5 +121,8 @@ int pthread_mutex_unlock(pthread_mutex_t* m) { REAL(int, pthread_mutex_unlock, 0
 int sem_init(sem_t* s, int sh, unsigned v) { REAL(int, sem_init, "GLIBC_2.2.5", sem_t*, int, unsigned); int r = fn(s, sh, v); mark(s, 1); return r; }
 int sem_destroy(sem_t* s) { REAL(int, sem_destroy, "GLIBC_2.2.5", sem_t*); use(s, "sem_destroy-on-destroyed"); int r = fn(s); mark(s, 2); return r; }
 int sem_post(sem_t* s) { REAL(int, sem_post, "GLIBC_2.2.5", sem_t*); __atomic_fetch_add(&verif_pt_calls, 1, __ATOMIC_RELAXED); perturb(); use(s, "sem_post-on-destroyed"); int r = fn(s); perturb(); return r; }
+int sem_timedwait(sem_t* s, const struct timespec* ts) { REAL(int, sem_timedwait, "GLIBC_2.2.5", sem_t*, const struct timespec*); __atomic_fetch_add(&verif_pt_calls, 1, __ATOMIC_RELAXED); use(s, "sem_timedwait-on-destroyed");
+  int ep = verif_pt_eintr_permille; if (ep && (int)(rnd() % 1000) < ep) { __atomic_fetch_add(&verif_pt_eintrs, 1, __ATOMIC_RELAXED); errno = EINTR; return -1; }   // as if a signal handler had run
+  perturb(); int r = fn(s, ts); perturb(); return r; }
 int sem_wait(sem_t* s) { REAL(int, sem_wait, "GLIBC_2.2.5", sem_t*); __atomic_fetch_add(&verif_pt_calls, 1, __ATOMIC_RELAXED); use(s, "sem_wait-on-destroyed"); perturb(); int r = fn(s); perturb(); return r; }
 }
